@@ -40,6 +40,9 @@ def run(v, workdir, replay):
     v.need("conc_queue_reads", 500)
     v.need("conc_same_bytes_from_two_tasks", 50)
     v.need("conc_distinct_outcome_orders", 100)
+    v.need("conc_lock_sections", 2000)
+    v.need("conc_walks_between_maintenance_runs", 300)
+    v.need("conc_inserts_ordered_before_a_maintenance_that_must_remove_them", 20)
     v.need("ops", 10000 if not thorough else 300000)
     for t in ("promotion", "demotion", "expiry", "cascade_removal", "recost_moves", "included", "parked_total_limit_hit"):
         v.need(t, 2)
@@ -234,6 +237,50 @@ def concurrent_part(v, key, evs, conc_acc):
             ids = [i for _, _, _, i in e["queue"]]
             if len(ids) != len(set(ids)):
                 v.violate("C13/builder-queue-duplicate", "builder queue (read concurrently) lists a transaction twice", {"run": list(key), "round": e["round"], "seq": e["seq"]})
+    # section order (guarded hook in the mempool: every insert, maintenance run and harness walk recorded under the lock):
+    # a transaction inserted BEFORE a maintenance section that was shown a chain nonce above the transaction's nonce must be gone in
+    # every walk after that maintenance (until it is inserted again)
+    meta = {}
+    for e in evs:
+        if e["kind"] == "mc_ret" and e.get("op") == "check_tx" and e.get("accepted"):
+            meta[e["id"]] = e["tx"]
+    for e in evs:
+        if e["kind"] != "mc_sections":
+            continue
+        rnd = e["round"]
+        maint = [x for x in evs if x["kind"] == "mc_call" and x.get("op") == "maintenance" and x["round"] == rnd]
+        walks = [x for x in evs if x["kind"] == "mc_walk" and x["round"] == rnd]
+        mi = wi = 0
+        inserted_at = {}       # id -> section index of its latest insert
+        swept = {}             # id -> section index of the maintenance that must have removed it
+        for idx, sec in enumerate(e["sections"]):
+            v.saw("conc_lock_sections")
+            kind = sec[0]
+            if kind == "insert":
+                inserted_at[sec[1]] = idx
+                swept.pop(sec[1], None)
+            elif kind == "maintenance":
+                if mi >= len(maint):
+                    break
+                shown = maint[mi]["shown_nonces"]
+                mi += 1
+                for i, at in inserted_at.items():
+                    m = meta.get(i)
+                    if m and m["nonce"] < shown.get(m["acct"], 0):
+                        swept.setdefault(i, idx)
+                        v.saw("conc_inserts_ordered_before_a_maintenance_that_must_remove_them")
+            elif kind == "walk":
+                if wi >= len(walks):
+                    break
+                w = walks[wi]["walk"]
+                wi += 1
+                v.saw("conc_walks_between_maintenance_runs")
+                present = {i for pool in (w["pending"], w["parked"]) for lst in pool.values() for _, i in lst}
+                for i, at in swept.items():
+                    if i in present:
+                        v.violate("C13/stale-nonce-survived-maintenance/ordered-by-lock-sections",
+                                  "a transaction inserted before a maintenance run (by the order of the mempool's lock sections) that was shown a higher chain nonce is still in the pools after it",
+                                  {"run": list(key), "round": rnd, "id": i, "tx": meta.get(i), "insert_section": inserted_at.get(i), "maintenance_section": at, "walk_section": idx})
     for (rnd, i), tasks in submitters.items():
         if len(tasks) > 1:
             v.saw("conc_same_bytes_from_two_tasks")
